@@ -41,6 +41,8 @@ from concurrent.futures import wait
 from typing import Any
 from typing import Dict
 from typing import List
+from typing import Optional
+from typing import Tuple
 
 from . import seeds
 
@@ -205,69 +207,109 @@ def _kill_pool(ex: ProcessPoolExecutor) -> None:
 # --------------------------------------------------------------------------
 # fork-isolated replay (pristine: the driver process never runs library code)
 # --------------------------------------------------------------------------
-def replay_isolated(modname: str, payload: dict, timeout_s: float = 30.0) -> List[dict]:
-    """Run mod.replay(payload) in a forked child (own session); returns its violations."""
-    import select
-    import struct
+def _short(text: str, limit: int = 1200) -> str:
+    """The full text is in the replay file; the console gets the two ends."""
+    if len(text) <= limit:
+        return text
+    return text[: limit // 2] + f" ...[{len(text) - limit} characters]... " + text[-limit // 2 :]
 
-    r, w = os.pipe()
-    pid = os.fork()
-    if pid == 0:
+
+class _Replay:
+    """One mod.replay(payload) running in a forked child (own session)."""
+
+    def __init__(self, modname: str, payload: dict, timeout_s: float) -> None:
+        import struct
+
+        self.r, w = os.pipe()
+        self.raw = b""
+        self.want: Optional[int] = None
+        self.eof = False
+        self.deadline = time.monotonic() + timeout_s + 5
+        self.pid = os.fork()
+        if self.pid == 0:
+            try:
+                os.close(self.r)
+                os.setsid()
+                mod = importlib.import_module(modname)
+                if hasattr(mod, "worker_init"):
+                    mod.worker_init()  # forks the golden zygote: before any watchdog is armed
+                signal.signal(signal.SIGALRM, signal.SIG_DFL)
+                signal.alarm(int(timeout_s) + 1)
+                out = replay_payload(mod, payload)
+                data = json.dumps({"ok": True, "violations": out}, default=repr).encode()
+            except BaseException as exc:  # noqa: BLE001
+                data = json.dumps({"ok": False, "error": "".join(traceback.format_exception(exc))}).encode()
+            try:
+                signal.alarm(0)
+                buf = struct.pack("<I", len(data)) + data
+                while buf:
+                    n = os.write(w, buf)
+                    buf = buf[n:]
+            finally:
+                os._exit(0)
+        os.close(w)
+
+    @property
+    def done(self) -> bool:
+        return self.eof or (self.want is not None and len(self.raw) >= 4 + self.want) or time.monotonic() >= self.deadline
+
+    def feed(self) -> None:
+        import struct
+
+        b = os.read(self.r, 1 << 16)
+        if not b:
+            self.eof = True
+            return
+        self.raw += b
+        if self.want is None and len(self.raw) >= 4:
+            (self.want,) = struct.unpack("<I", self.raw[:4])
+
+    def reap(self) -> None:
         try:
-            os.close(r)
-            os.setsid()
-            mod = importlib.import_module(modname)
-            if hasattr(mod, "worker_init"):
-                mod.worker_init()  # forks the golden zygote: before any watchdog is armed
-            signal.signal(signal.SIGALRM, signal.SIG_DFL)
-            signal.alarm(int(timeout_s) + 1)
-            out = replay_payload(mod, payload)
-            data = json.dumps({"ok": True, "violations": out}, default=repr).encode()
-        except BaseException as exc:  # noqa: BLE001
-            data = json.dumps({"ok": False, "error": "".join(traceback.format_exception(exc))}).encode()
+            os.close(self.r)
+        except OSError:
+            pass
         try:
-            buf = struct.pack("<I", len(data)) + data
-            while buf:
-                n = os.write(w, buf)
-                buf = buf[n:]
-        finally:
-            os._exit(0)
-    os.close(w)
-    raw = b""
-    deadline = time.monotonic() + timeout_s + 5
-    want = None
-    try:
-        while True:
-            left = deadline - time.monotonic()
-            if left <= 0:
-                break
-            ready, _, _ = select.select([r], [], [], left)
-            if not ready:
-                break
-            b = os.read(r, 1 << 16)
-            if not b:
-                break
-            raw += b
-            if want is None and len(raw) >= 4:
-                (want,) = struct.unpack("<I", raw[:4])
-            if want is not None and len(raw) >= 4 + want:
-                break
-    finally:
-        os.close(r)
-        try:
-            os.killpg(pid, signal.SIGKILL)  # the child, its zygote and any golden grandchild
+            os.killpg(self.pid, signal.SIGKILL)  # the child, its zygote and any golden grandchild
         except (ProcessLookupError, PermissionError):
             pass
         try:
-            os.waitpid(pid, 0)
+            os.waitpid(self.pid, 0)
         except ChildProcessError:
             pass
-    if want is None or len(raw) < 4 + want:
-        raise HarnessError("replay child died or timed out")
-    res = json.loads(raw[4 : 4 + want])
-    if not res["ok"]:
-        raise HarnessError("replay child raised:\n" + res["error"])
-    return res["violations"]
+
+    def result(self) -> List[dict]:
+        """Call after done and reap()."""
+        if self.want is None or len(self.raw) < 4 + self.want:
+            raise HarnessError("replay child died or timed out")
+        res = json.loads(self.raw[4 : 4 + self.want])
+        if not res["ok"]:
+            raise HarnessError("replay child raised:\n" + res["error"])
+        return res["violations"]
+
+
+def _pump(live: List["_Replay"], head: "_Replay") -> None:
+    """Read from every live child until ``head`` has finished (children never block on a full pipe)."""
+    import select
+
+    while not head.done:
+        fds = {x.r: x for x in live if not x.done}
+        if not fds:
+            break
+        left = max(0.0, min(x.deadline for x in fds.values()) - time.monotonic())
+        ready, _, _ = select.select(list(fds), [], [], min(left, 1.0))
+        for fd in ready:
+            fds[fd].feed()
+
+
+def replay_isolated(modname: str, payload: dict, timeout_s: float = 30.0) -> List[dict]:
+    """Run mod.replay(payload) in a forked child (own session); returns its violations."""
+    rp = _Replay(modname, payload, timeout_s)
+    try:
+        _pump([rp], rp)
+    finally:
+        rp.reap()
+    return rp.result()
 
 
 def replay_payload(mod: Any, payload: dict) -> List[dict]:
@@ -286,33 +328,59 @@ def replay_payload(mod: Any, payload: dict) -> List[dict]:
 
 
 def minimise(modname: str, mod: Any, viol: dict, budget_s: float) -> dict:
-    """Greedy shrink: accept a candidate iff an isolated replay shows the same class+signature."""
+    """Greedy shrink: accept a candidate iff an isolated replay shows the same class+signature.
+
+    Candidates are tried in the order the module proposes them and the first one (in that
+    order) that still fails is taken, exactly as a sequential search would; several are
+    *evaluated* at once, each in its own forked process, because most candidates do not fail.
+    """
     if not hasattr(mod, "shrink_candidates") or "chunk_replay" in viol["payload"]:
         return viol
+    width = max(1, min(12, int(os.environ.get("VERIF_WORKERS", os.cpu_count() or 1)) - 2))
     t0 = time.monotonic()
     best = viol
     improved = True
     tried = 0
+    accepted = 0
     while improved and time.monotonic() - t0 < budget_s:
         improved = False
-        for cand in mod.shrink_candidates(best["payload"]):
-            if time.monotonic() - t0 >= budget_s:
-                break
-            tried += 1
-            try:
-                vs = replay_isolated(modname, cand, timeout_s=20.0)
-            except HarnessError:
-                continue
-            hit = [v for v in vs if v["class"] == best["class"] and v["signature"] == best["signature"]]
-            if hit:
-                nv = dict(hit[0])
-                nv["run_index"] = best.get("run_index")
-                nv["run_seed"] = best.get("run_seed")
-                best = nv
-                improved = True
-                break
+        cands = iter(mod.shrink_candidates(best["payload"]))
+        window: List[Tuple[dict, _Replay]] = []
+        exhausted = False
+        try:
+            while True:
+                while not exhausted and len(window) < width and time.monotonic() - t0 < budget_s:
+                    try:
+                        cand = next(cands)
+                    except StopIteration:
+                        exhausted = True
+                        break
+                    window.append((cand, _Replay(modname, cand, 20.0)))
+                if not window:
+                    break
+                cand, head = window.pop(0)
+                tried += 1
+                _pump([head] + [w for _c, w in window], head)
+                head.reap()
+                try:
+                    vs = head.result()
+                except HarnessError:
+                    continue
+                hit = [v for v in vs if v["class"] == best["class"] and v["signature"] == best["signature"]]
+                if hit:
+                    nv = dict(hit[0])
+                    nv["run_index"] = best.get("run_index")
+                    nv["run_seed"] = best.get("run_seed")
+                    best = nv
+                    improved = True
+                    accepted += 1
+                    break
+        finally:
+            for _c, w in window:
+                w.reap()
     best = dict(best)
     best["minimise_candidates_tried"] = tried
+    best["minimise_steps_accepted"] = accepted
     return best
 
 
@@ -469,7 +537,7 @@ def run_check(modname: str, tier: str) -> int:
         except HarnessError as exc:
             print(f"note: minimisation failed ({exc}); unminimised replay kept", flush=True)
         print(f"VIOLATION property={prop} replay={path}", flush=True)
-        print(f"  signature: {s}\n  what: {v.get('what', '')}", flush=True)
+        print(f"  signature: {s}\n  what: {_short(v.get('what', ''))}", flush=True)
         n_viol += 1
     if len(unknown) > 5:
         print(f"  ... and {len(unknown) - 5} further distinct violation signatures", flush=True)
@@ -543,7 +611,7 @@ def run_replay(path: str) -> int:
     vs = replay_payload(mod, doc["payload"])
     same = [v for v in vs if v["signature"] == doc["signature"]]
     for v in vs:
-        print(f"  reproduced: class={v['class']} signature={v['signature']}\n    {v.get('what', '')}")
+        print(f"  reproduced: class={v['class']} signature={v['signature']}\n    {_short(v.get('what', ''))}")
     if same:
         print(f"VIOLATION property={prop} replay={path}")
         return EXIT_VIOLATION
